@@ -7,6 +7,7 @@ import Mkdb.Proofs.RefineStmtB
 import Mkdb.Proofs.CreateCat
 import Mkdb.Proofs.SpecRefine
 import Mkdb.Proofs.SpecRefineB
+import Mkdb.Proofs.SpecHistory
 import Mkdb.Model.Session
 /-!
 # C01 — table contents always equal what the statement history implies
@@ -496,5 +497,33 @@ theorem C01_session_runs_evalStmt (s : Session.Sess) (st : Sql.Stmt)
   · exact hv _
   · rfl
   · exact hv _
+
+end Mkdb.Store
+
+namespace Mkdb.Store
+open Mkdb.Tree Mkdb.Page Mkdb.Tuple Mkdb.Generated
+
+/-- **C01.every_history_refines_plain_model** (the property itself, at the level of parsed
+statements, for histories of any length): start from related states; run any list of statements
+each of which the plain model either accepts (with the room a Go program has, `StmtRoom`) or refuses
+before a change (`StmtRefusal`), going on after every error value.  The engine model never crashes and
+ends related to `specHist`, the plain database the acknowledged statements of the history imply
+(a refused statement contributes nothing).  Excluded by `HistOK`, and stated exactly in
+C14_insert_kth_row_plain_model / C14_update_kth_row_plain_model: a multi-row statement refused at a
+later row (the known finding of C14), after which the plain database of the judge and the store
+differ by the applied prefix. -/
+theorem C01_every_history_refines_plain_model (order : List Nat) (sts : List Sql.Stmt)
+    (db : Engine.DB) (pt sch : Levels) (tbls : List (Bytes × Levels)) (sdb : Spec.SDB)
+    (h : Rel db pt sch tbls sdb) (hok : HistOK order sts db sdb) :
+    ∃ db' pt' sch' tbls', runHist order db sts = some db' ∧ Rel db' pt' sch' tbls' (specHist sdb sts) :=
+  runHist_refines_spec order sts db pt sch tbls sdb h hok
+
+/-- the side conditions are met by every history of DELETE statements on user tables, whatever their
+WHERE clauses (non-vacuity of `HistOK` beyond single examples; `hist_example` mixes in a refused
+CREATE TABLE on a concrete store) -/
+theorem C01_delete_histories_meet_side_conditions (order : List Nat) (sts : List Sql.Stmt)
+    (h : ∀ st ∈ sts, ∃ t w, st = .delete t w ∧ t ≠ sysPages ∧ t ≠ sysSchema)
+    (db : Engine.DB) (sdb : Spec.SDB) : HistOK order sts db sdb :=
+  histOK_deletes order sts h db sdb
 
 end Mkdb.Store
